@@ -5,6 +5,8 @@
  3. an IntData history with one corrupted observation is rejected
  4. design level: the named deviations of the pinned tree violate the model's invariants
     (PinnedSeqReset -> ReentryBound, PinnedAnyDrop -> FurthestError), the repaired model does not
+ 5. per component specification (Reader, FileSet, Trim, Arith, Literals, TreePass, C12Trace, C14Trace, C03Trace): a recorded
+    trace of the real code is accepted and the same trace with one corrupted observation is rejected at that line
 exit 0 iff every control behaves as stated."""
 import copy
 import json
@@ -82,6 +84,51 @@ def main(argv):
         p = r.path("st-int-bad.ndjson"); core.write_ndjson(p, c)
         o = r.tlc("IntDataTrace", cfg="IntDataTrace.cfg", workers=1, env={"TRACE": p}, timeout=300)
         control("an observation with one element dropped is rejected at that operation", (not o.ok) and o.rejected_line == j + 1, "line %s" % o.rejected_line)
+
+        # one corrupted observation per component specification (the specification is the judge of every recorded line)
+        def component(name, comp, mode, kw, module, pick, corrupt):
+            path = r.path("st-%s.ndjson" % name)
+            r.pvh(comp, mode, out=path, **kw)
+            rows_ = core.read_ndjson(path)
+            o = r.tlc(module, cfg=module + ".cfg", workers=1, env={"TRACE": path}, timeout=600)
+            control("recorded %s observations are accepted by %s" % (name, module), o.ok, "" if o.ok else "line %s" % o.rejected_line)
+            j = next((i for i, x in enumerate(rows_) if pick(x)), None)
+            if j is None:
+                control("%s: a line to corrupt exists" % name, False)
+                return
+            bad = copy.deepcopy(rows_)
+            corrupt(bad[j])
+            bp = r.path("st-%s-bad.ndjson" % name)
+            core.write_ndjson(bp, bad)
+            o = r.tlc(module, cfg=module + ".cfg", workers=1, env={"TRACE": bp}, timeout=600)
+            control("%s: one corrupted field is rejected by %s at that line" % (name, module), (not o.ok) and o.rejected_line == j + 1, "line %s (corrupted %d)" % (o.rejected_line, j + 1))
+
+        def bump(field, idx=None):
+            def f(x):
+                if idx is None:
+                    x[field] += 1
+                else:
+                    x[field][idx] += 1
+            return f
+        component("reader", "reader", "gen", dict(seed=2, n=1, maxlen=8), "ReaderTrace",
+                  lambda x: x.get("f") == "ReadRune" and x.get("ok"), bump("np"))
+        component("fileset", "fileset", "gen", dict(seed=2, n=2, maxfiles=3, maxlen=12), "FileSetTrace",
+                  lambda x: x.get("ev") == "q" and x.get("s") != "unknown", lambda x: x.update(s="unknown"))
+        component("trim", "trim", "gen", dict(seed=2, n=20, maxtok=4), "TrimTrace",
+                  lambda x: x.get("ok") is False and x.get("err"), bump("err", 0))
+        component("arith", "arith", "gen", dict(seed=2, n=10), "ArithTrace",
+                  lambda x: x.get("ok") is True, bump("val"))
+        component("literals", "literals", "gen", dict(seed=2, n=60), "LiteralsTrace",
+                  lambda x: x.get("k") == "node", bump("e"))
+        component("treepass", "treepass", "gen", dict(seed=2, n=3), "TreePassTrace",
+                  lambda x: len(x.get("walk", {}).get("log", [])) > 1, lambda x: x["walk"]["log"].pop())
+        component("placement", "place", "gen", dict(seed=2, n=12), "C12Trace",
+                  lambda x: x["b"].get("trees"), lambda x: x["b"]["trees"][0].__setitem__(2, x["b"]["trees"][0][2] + 1))
+        component("gated schedules", "conc", "gated", dict(seed=2, n=3), "C14Trace",
+                  lambda x: x.get("ev") == "run" and len(x.get("conc", [])) > 2, lambda x: x["conc"][1].__setitem__("calls", x["conc"][1]["calls"] + 1))
+        component("memoised-vs-plain", "parse", "c03", dict(seed=2, n=4, maxlen=3), "C03Trace",
+                  lambda x: x.get("plain") and x["plain"][0].get("calls", 0) > 0 and x["memo"][0].get("res"),
+                  lambda x: x["memo"][0]["res"].pop())
 
         # design level
         o = r.tlc("ParsleyMC", cfg_text=parsefam.mc_cfg("HID", 3, [97, 98, 120], export=False, pinned_seq=True), workers=core.NCPU, timeout=900)
